@@ -1,5 +1,6 @@
 import Driver.Util
 import HeimdallModel.Model.MechTypes
+import HeimdallModel.Model.MechTemplate
 import HeimdallModel.Model.Footprint
 import HeimdallModel.Gen.Footprints
 -- @family mech
@@ -91,6 +92,45 @@ def specOf (σ₀ : Store Entries Override) (p : Nat) (ov : Override) (eff : Ent
   (if spec == eff then Json.null else unflatten spec,
    jarr (zi.map fun k => Json.str (if k.2 == "" then k.1 else k.1 ++ "." ++ k.2)))
 
+/-! ### what an execution has to render (`Model/MechTemplate.lean`)
+
+Every string of the object's effective configuration that is a template of the named-template fragment (`Tpl.parse`,
+uses `define` / `block` / `template`) is rendered with the object's OWN definitions and the inputs of the request; the
+implementation side looks for the rendering in what the execution produced. -/
+
+partial def strLeaves (path : List String) : Json → List (List String × String)
+  | .str s => [(path, s)]
+  | .obj m => m.toList.flatMap fun kv => strLeaves (path ++ [kv.1]) kv.2
+  | .arr a => a.toList.flatMap (strLeaves path)
+  | _ => []
+
+def hasSub (s sub : String) : Bool := (s.splitOn sub).length > 1
+
+def knownFields : List String := ["Subject.ID", "Request.Method"]
+
+def tplInputs (req : Json) : Tpl.Inputs :=
+  let sub := match req.getObjVal? "sub" with
+    | .ok s => strD s "id" ""
+    | .error _ => "u1"
+  let method := strD req "method" "GET"
+  fun p => if p == "Subject.ID" then sub else if p == "Request.Method" then method else ""
+
+/-- `null`: no template of the fragment in the configuration; else the renderings to be found in the output of the
+execution (`strs`) and whether some template cannot be rendered with its own definitions (`fails`) -/
+def wants (eff req : Json) : Json × Nat :=
+  let payload := strD eff "payload" ""
+  let leaves := (strLeaves [] eff).filter fun ps =>
+    hasSub ps.2 "{{" && (ps.1.getLast? != some "url") && (ps.1.getLast? != some "token_url") &&
+    (match ps.1 with
+     | ["values", k] => hasSub payload (".Values." ++ k ++ " ")
+     | _ => true)
+  let srcs := leaves.filterMap fun ps => match Tpl.parse ps.2 with
+    | some src => if Tpl.usesNames src && (Tpl.fieldsOf src).all knownFields.contains then some src else none
+    | none => none
+  if srcs.isEmpty then (Json.null, 0) else
+    let outs := srcs.map fun src => (Tpl.renderOwn src (tplInputs req)).map String.join
+    (Json.mkObj [("strs", jstrs ((outs.filterMap id).filter (· != ""))), ("fails", outs.any (·.isNone))], srcs.length)
+
 structure Counters where
   inherited : Nat := 0
   fresh : Nat := 0
@@ -102,6 +142,8 @@ structure Counters where
   concCreated : Nat := 0
   stuck : Nat := 0
   zeroIgnored : Nat := 0
+  namedTemplates : Nat := 0
+  namedFailing : Nat := 0
 
 /-- the answer for an object handed out: `res` part, effective configuration, specification's configuration (if
 different), keys whose zero value the code ignores -/
@@ -131,6 +173,7 @@ def run (c : Json) : E Json := do
   let mut effs : List Json := []      -- per object handed out (creates, then concurrent creates of a batch)
   let mut specs : List Json := []
   let mut zeros : List Json := []
+  let mut wantL : List Json := []     -- per operation: what an execution has to render (`wants`), `null` otherwise
   for op in ← arr c "ops" do
     let k ← str op "op"
     if k == "create" then
@@ -176,8 +219,16 @@ def run (c : Json) : E Json := do
         n := { n with reads := n.reads + (cfg'.threads 0).seen.length,
                       stuck := n.stuck + (if (cfg'.threads 0).ops.isEmpty then 0 else 1) }
         st := { st with σ := cfg'.store }
-        out := out ++ [Json.mkObj [("ran", true), ("ref", true), ("changed", changed st)]]
-      | _ => out := out ++ [Json.mkObj [("ran", false), ("changed", changed st)]]
+        -- the rendering is a function of the object's own configuration (its template texts) and of the request
+        let (w, nt) := wants (unflatten (effective st.σ h.inst)) (fldD op "req" (Json.mkObj []))
+        n := { n with namedTemplates := n.namedTemplates + nt,
+                      namedFailing := n.namedFailing + (if boolD w "fails" false then 1 else 0) }
+        wantL := wantL ++ [w]
+        out := out ++ [Json.mkObj ([("ran", Json.bool true), ("ref", Json.bool true)] ++ (if w.isNull then [] else [("rendered", Json.bool true)]) ++
+          [("changed", changed st)])]
+      | _ =>
+        wantL := wantL ++ [Json.null]
+        out := out ++ [Json.mkObj [("ran", false), ("changed", changed st)]]
     else if k == "par" then
       -- `n` concurrent executions round-robin over the handles `hs`, interleaved with the creation of the variants
       -- listed under `creates` (every one a thread of its own going through `begin` / `slot` / `publish`): one
@@ -260,11 +311,14 @@ def run (c : Json) : E Json := do
             created := created ++ [Json.mkObj [("st", "notfound")]]
         out := out ++ [Json.mkObj [("ran", true), ("par_ok", ok), ("created", jarr created), ("changed", changed st)]]
     else throw s!"unknown op {k}"
+    if k != "exec" then wantL := wantL ++ [Json.null]
   return Json.mkObj [("res", jarr out), ("eff", jarr effs), ("eff_spec", jarr specs), ("zero_ignored", jarr zeros),
+    ("want", jarr wantL),
     ("stats", Json.mkObj [("alias", jnat n.alias), ("variant", jnat n.variant), ("errors", jnat n.errors),
       ("inherited_refs", jnat n.inherited), ("fresh_refs", jnat n.fresh), ("reads", jnat n.reads),
       ("interleaved_steps", jnat n.steps), ("variants_created_interleaved", jnat n.concCreated),
       ("stuck_programs", jnat n.stuck), ("zero_ignored_overrides", jnat n.zeroIgnored),
+      ("named_templates_rendered", jnat n.namedTemplates), ("named_templates_failing_alone", jnat n.namedFailing),
       ("cells", jnat st.σ.cells.length), ("instances", jnat st.σ.insts.length)])]
 
 end Driver.Mech
